@@ -292,6 +292,7 @@ Definition init : proc :=
 Inductive out :=
 | OutReq (r : request)
 | OutAppReply (valid : bool) (st : astate)
+| OutConnectedRun (r : N)      (* with a "connected" answer: the run id in the connect reply handed to the agent *)
 | OutExited.
 
 (* ------------------------------------------------------------------ small table helpers *)
@@ -428,6 +429,13 @@ Definition consider_connect (s : proc) (i : nat) : proc * list out :=
     (s2, [OutReq (mk_req id RPreconnect (a_key a) 0 0 0 [] 0 0 0 false 0)])
   else (s, []).
 
+(* a connected application's answer carries its raw connect reply (which names the run) *)
+Definition connected_run (a : appobj) : list out :=
+  match a_state a, a_reply a with
+  | SConnected, Some r => [OutConnectedRun (cr_run r)]
+  | _, _ => []
+  end.
+
 (* Processor.processAppInfo *)
 Definition app_limit : nat := Z.to_nat AppLimit.
 Definition app_info (s : proc) (key : N) (dt : bool) (id : option N) : proc * list out :=
@@ -438,7 +446,7 @@ Definition app_info (s : proc) (key : N) (dt : bool) (id : option N) : proc * li
            let s1 := put_obj s i (set_activity (get_obj s i) (p_now s)) in
            let st := a_state (get_obj s1 i) in
            let '(s2, o) := consider_connect s1 i in
-           (s2, OutAppReply false st :: o)
+           (s2, OutAppReply false st :: connected_run (get_obj s1 i) ++ o)
        | None =>
            if Nat.leb app_limit (length (p_apps s)) then (s, [OutAppReply false SUnknown])
            else
